@@ -37,7 +37,7 @@ checks = {
  "C10": ("KIND-LAYOUT/KIND-STORE/KIND-CALL (parser, printer, FieldParams and both notation permutations agree position by position), MAPORDER, ELEMENTWISE, MAXSEL (every zoom change of the expansion targets max(h,v); no ordering loses the voxel), NOCLAMP, narrowing index conversions, ID text used as a strings.Trim cut set, GUARD (arity)",
          "not decided: 4^d / 2^d count and region equality of the expansion",
          "component-kind/layout inference + ordering enumeration"),
- "C11": ("KIND-CALL (groups carry the request's zooms/height/base parameters; role wiring of HorizontalZoom/VerticalZoom), DISTINCT-PAIR (miss-then-insert on the cross-ID map), UNTRIMMED (a pre-sized pair list is cut to its fill count), no quadkey through float64, NOSKIP in both directions, ROUND over the closure, PER-ITERATION (fresh scratch lists), ELEMENTWISE (no cache carried between IDs), NOFLOAT (integer-only encoder/decoder), REUSE, ERRUSED, GUARD (zoom domains, arity, integer fields, maxHeight<minHeight)",
+ "C11": ("ECHO (every scalar the group constructor receives is a parameter of the request, the same value on every path: not a constant, not arithmetic on it, not reset on some paths), KIND-CALL (groups carry the request's zooms/height/base parameters; role wiring of HorizontalZoom/VerticalZoom), DISTINCT-PAIR (miss-then-insert on the cross-ID map), UNTRIMMED (a pre-sized pair list is cut to its fill count), no quadkey through float64, NOSKIP in both directions, ROUND over the closure, PER-ITERATION (fresh scratch lists), ELEMENTWISE (no cache carried between IDs), NOFLOAT (integer-only encoder/decoder), REUSE, ERRUSED, GUARD (zoom domains, arity, integer fields, maxHeight<minHeight)",
          "NOT decided: that the encoder is the bit interleaving and the decoder its inverse (loop-carried bit arithmetic)",
          "component-kind inference, dominance-based guard analysis, scenario path analysis"),
  "C12": ("ASHIFT/ROUND (all scaling is a signed shift = floor; no (b<<d | 1<<d) - 1 bit fill), RANGEUSE, INTERVAL (existence tests accept exactly [-2^z,2^z-1] / [0,2^z-1]), OUTRANGE (both returned bounds range-checked), UPPER-BOUND-FORM (scale(i+1)-1 only where the shift is known positive: found D11, fixed; D12 known finding), NOPARTIAL, KIND-LAYOUT (F vs key scale)",
